@@ -5,6 +5,9 @@
 
 #include "support/NotCopyable.h"
 #include "util/TimeUtilityFunctions.h"  // for MUSCLE_TIME_NEVER
+#ifdef MUSCLE_VERIF_HOOKS
+# include "system/VerifHooks.h"
+#endif
 
 #ifdef MUSCLE_SINGLE_THREAD_ONLY
 # error "You're not allowed use the WaitCondition class if you have the MUSCLE_SINGLE_THREAD_ONLY compiler constant defined!"
@@ -80,6 +83,14 @@ public:
       uint32 junk;
       uint32 & retCounter = optRetNotificationsCount ? *optRetNotificationsCount : junk;
       retCounter = 0;
+#ifdef MUSCLE_VERIF_HOOKS
+      switch(MUSCLE_VERIF_HOOK(MUSCLE_VH_WC_WAIT, this, (wakeupTime != MUSCLE_TIME_NEVER)))
+      {
+         case 1:  return B_TIMED_OUT;         // the harness's schedule says: the time-out fires now
+         case 2:  return WaitAux(retCounter); // the harness's schedule says: a notification is pending, take it (virtual time: never consult the clock)
+         default: break;
+      }
+#endif
       return (wakeupTime == MUSCLE_TIME_NEVER) ? WaitAux(retCounter) : WaitUntilAux(wakeupTime, retCounter);
    }
 
@@ -310,6 +321,9 @@ private:
    status_t NotifyAux(uint32 increaseBy) const
    {
       if (increaseBy == 0) return B_NO_ERROR;  // no point waking everyone up for a no-op
+#ifdef MUSCLE_VERIF_HOOKS
+      (void) MUSCLE_VERIF_HOOK(MUSCLE_VH_WC_NOTIFY, this, increaseBy);
+#endif
 
       status_t ret;
 
